@@ -36,6 +36,54 @@ def clears_vec_field(prog, fn, field):
             if vec_base_field(prog, c.args[0]) == (field,):
                 if all(b.cfg.dominates(c.point[0], r) for r in b.cfg.returns):
                     return c
+    # path-wise: on every path the vector is emptied, or is known to be empty already (`if !v.is_empty() { v.truncate(0) }`)
+    from rules.gate import edge_truth
+    from program import VEC_MUTATORS
+    empties, fills = {}, set()
+    first = None
+    for c in b.calls:
+        nm = c.callee_name()
+        if prog.classify(c) != 'std' or not c.args or vec_base_field(prog, c.args[0]) != (field,):
+            continue
+        if nm == 'clear' or (nm == 'truncate' and len(c.args) > 1 and strip(c.args[1]).is_const(0)):
+            empties[c.point[0]] = c
+            first = first or c
+        elif nm in VEC_MUTATORS and (c.args[0].ty or '').startswith('&mut'):
+            fills.add(c.point[0])
+    if not empties:
+        return None
+    state = {0: False}
+    work = [0]
+    out = {}
+    while work:
+        x = work.pop()
+        cur = state.get(x, False)
+        if x in fills:
+            cur = False
+        if x in empties:
+            cur = True
+        if out.get(x) == cur and x in out:
+            continue
+        out[x] = cur
+        t = b.mir['blocks'][x]['term']
+        d = strip(b.switch_discr[x]) if x in b.switch_discr else None
+        neg = False
+        while d is not None and d.kind == 'un' and d.args[0] == 'Not':
+            d = strip(d.args[1])
+            neg = not neg
+        for s2 in b.cfg.succ[x]:
+            nxt = cur
+            if d is not None and d.kind == 'call' and d.callee_name() == 'is_empty' and d.args and vec_base_field(prog, d.args[0]) == (field,):
+                tr = edge_truth(t, s2)
+                if tr is not None and (tr != neg):
+                    nxt = True
+            old = state.get(s2)
+            new = nxt if old is None else (old and nxt)
+            if old != new or s2 not in out:
+                state[s2] = new
+                work.append(s2)
+    if all(out.get(r, False) for r in b.cfg.returns):
+        return first
     return None
 
 
